@@ -17,7 +17,8 @@ import reftext
 
 PID = 'C13'
 I2 = Schema('I2', [Opt('func', 'include', '', None, 'i'), Opt('int', 'i', '', 5), Opt('int', 'l', 'L', [b'1']), Opt('str', 's', '', b'd'),
-                   Opt('sec', 'm', 'M', sub=[Opt('int', 'x', '', 1)]), Opt('sec', 'sec', '', sub=[Opt('int', 'x', '', 1), Opt('int', 'l', 'L', [b'1'])])])
+                   Opt('sec', 'm', 'M', sub=[Opt('int', 'x', '', 1), Opt('func', 'include', '', None, 'i')]),
+                   Opt('sec', 'sec', '', sub=[Opt('int', 'x', '', 1), Opt('int', 'l', 'L', [b'1']), Opt('func', 'include', '', None, 'i')])])   # include is declared inside the sections too
 POOL = [b'i = 7', b'l += {2}', b's = "q r"', b'm { x = 3 }', b'sec { x = 4 l += {9} }', b'l = {5}', b'i = 8']
 LIMIT = 10
 PLACEMENTS = ['rel', 'abs', 'sp1', 'sp2', 'abs+path']
@@ -158,6 +159,9 @@ def run(st, drv, root, batch):
             exp_dump = 'dump ' + dump_sec(mflat.store, 0)
             if m.verdict == ACCEPT and 'dump ' + dump_sec(m.store, 0) != exp_dump:
                 raise RuntimeError('machinery: the model itself does not satisfy include == in place')
+            if mflat.verdict == ACCEPT and m.verdict not in (ACCEPT, UNSPEC):
+                # vacuity guard: an arrangement with an accepted flat equivalent must itself be accepted by the model
+                raise RuntimeError('machinery: %s is %s (%s) although its flat text is accepted' % (label, m.verdict, m.why))
         metas.append((label, m, exp_dump, main))
     results = drv.run(cases)
     for c, r, (label, m, exp_dump, main) in zip(cases, results, metas):
